@@ -127,7 +127,7 @@ def _liveness_unit(histories):
 
 
 PROGS = (('acq',), ('acq', 'rel_all'), ('rel_all',), ('acq_all', 'rel_all'),
-         ('acq', 'rel_one'), ('acq_all',))
+         ('acq', 'rel_one'), ('acq_all',), ('rel_list',), ('acq', 'rel_list'))
 
 
 def ownership_configs(tier):
